@@ -70,6 +70,9 @@ def cfg_text(inst, props, depth=None, extra=None):
         lines.append("  %s %s" % (k, v) if v.startswith("<-") else "  %s = %s" % (k, v))
     lines += ["CONSTRAINT Constr", "VIEW View", "CHECK_DEADLOCK FALSE", "INVARIANT GhostAgrees",
               "INVARIANT StoreInv", "INVARIANT StoreInvCrash", "INVARIANT ConnInv"]
+    if "P13" in props or "P10" in props:
+        # from every reachable state the store can be drained (MBServer!Drains)
+        lines.append("INVARIANT Drains")
     for p in props:
         lines.append("PROPERTY %s" % p)
     return "\n".join(lines) + "\n", c
